@@ -182,6 +182,20 @@ func (r StructReplacer) Replace(d data.Data, cl Changelog, pos token.Pos) (refle
 			return reflect.Value{}, err
 		}
 	}
+	if r.Type == funcTypeType {
+		// "func f() (...)" where the elision stands for nothing has no
+		// results. It is printed as "func f()", so it has to look like that
+		// to the changes that follow, too: a pattern "func f()" matches a
+		// function without a result list, not one with an empty list.
+		if res := v.FieldByName("Results"); !res.IsNil() && res.Elem().FieldByName("List").Len() == 0 {
+			res.Set(reflect.Zero(res.Type()))
+		}
+		// Likewise "(...) " around what is left as a single unnamed result
+		// is printed without the parentheses.
+		if res, ok := v.FieldByName("Results").Interface().(*ast.FieldList); ok && res != nil && len(res.List) == 1 && len(res.List[0].Names) == 0 {
+			res.Opening, res.Closing = token.NoPos, token.NoPos
+		}
+	}
 	for _, name := range nonEmptyLists[r.Type] {
 		if v.FieldByName(name).Len() == 0 {
 			return reflect.Value{}, &misfitError{msg: fmt.Sprintf("cannot generate %v with an empty %v list", r.Type, name)}
@@ -189,6 +203,8 @@ func (r StructReplacer) Replace(d data.Data, cl Changelog, pos token.Pos) (refle
 	}
 	return v, nil
 }
+
+var funcTypeType = reflect.TypeOf(ast.FuncType{})
 
 // nonEmptyLists names the lists go/ast does not expect to be empty: the
 // position of the node is taken from their first or last element. An elision
